@@ -190,18 +190,20 @@ var plans = map[string]Plan{
 	},
 	"C11": {
 		Level: "exploration",
-		Rule: "cases are documents: (roundtrip, walk) AST models drawn from the full grammar (every header, definition, type, constant and annotation form, docstrings) printed by an independent printer with randomised layout (blanks incl. CR and newlines after any token, #, //, /* */ comments, optional separators, both quote styles with every escape, hex / signed ints, doubles with exponents) that records the true (line, column) of each node's first token; (totality) random bytes, ASCII / token soup and token-level mutations of printed documents; plus a fixed grid of minimal reproductions. " +
+		Rule: "cases are documents: (roundtrip, walk) AST models drawn from the full grammar (every header, definition, type, constant and annotation form, docstrings: single-line, starred and bare blocks, and docstrings without any body - /***/, /** */, /**\\n*/, blank lines, gutter-only and whitespace-only lines, CRLF - on definitions, enum items, fields, parameters and functions, 0 / 1 / >=2 newlines above the node, orphaned ones in front of a node's own docstring, between any two tokens >=2 newlines above what follows, and at the end of the document) printed by an independent printer with randomised layout (blanks incl. CR and newlines after any token, #, //, /* */ comments, optional separators, both quote styles with every escape, hex / signed ints, doubles with exponents) that records the true (line, column) of each node's first token; (totality) random bytes, ASCII / token soup and token-level mutations of printed documents; plus a fixed grid of minimal reproductions and a complete grid (docgrid) of 23 degenerate docstrings x 12 documentable node kinds x 4 placements. " +
 			"Oracle: parsed tree == model in structure, names, literal values, docstrings and positions (ast.Pos, Info.Pos, Line/Column); ast.Walk == own traversal (each node once, true parents); Parse returns exactly one of program / non-empty error list with positions inside the document, never panics. " +
 			"Non-trivial: >=3 definitions and >=1 of {escape in a literal, comment between tokens, keyword followed by newline, docstring}; totality: non-empty input. Distinct: SHA-256 of the document text.",
 		Assumptions: []string{
 			"the generator emits only syntax that thrift.y / lex.rl accept (read from those files); 'true position' = first token of the node's production",
 			"input classes of open known findings are excluded by construction in the random units (C11_AVOID) and counted; the fixed grid re-observes them on every run",
+			"the content of a docstring without body (only markers, blanks, newlines and lines holding the gutter ' *') is the empty string (ParseDocstring's documented rule: the text between the markers without gutters and indentation); all gutter lines of one docstring are indented alike (the documented form); the four-byte text /**/ is a comment, never generated as a docstring (N1)",
 		},
 		Units: []Unit{
 			{Name: "roundtrip", Pkg: "./checks/c11", Run: "^TestRoundTrip$", Rapid: true, Shards: [2]int{6, 16}, Checks: [2]int{20000, 100000}, Env: []string{"C11_AVOID=K2,N1"}},
 			{Name: "walk", Pkg: "./checks/c11", Run: "^TestWalk$", Rapid: true, Shards: [2]int{4, 8}, Checks: [2]int{16000, 100000}, Env: []string{"C11_AVOID=K2,N1"}},
 			{Name: "totality", Pkg: "./checks/c11", Run: "^TestTotality$", Rapid: true, Shards: [2]int{6, 16}, Checks: [2]int{25000, 150000}, Env: []string{"C11_AVOID=K2,N1"}},
 			{Name: "repros", Pkg: "./checks/c11", Run: "^TestRepros$", Shards: [2]int{1, 1}},
+			{Name: "docgrid", Pkg: "./checks/c11", Run: "^TestDocGrid$", Shards: [2]int{1, 1}},
 			{Name: "fuzz", Pkg: "./checks/c11", Fuzz: "FuzzParse", Shards: [2]int{0, 1}, FuzzTime: [2]time.Duration{0, 120 * time.Second}, Weight: 16, Env: []string{"C11_AVOID=K2,N1"}},
 		},
 	},
@@ -320,11 +322,12 @@ var plans = map[string]Plan{
 	},
 	"C15": {
 		Level: "exploration",
-		Rule: "cases are (generated type, value, value differing only in go.redact field values, value differing only in go.nolog fields) over programs generated with one field in two carrying go.redact and one in four go.nolog, on fields of every type, in structs, unions, exceptions and function argument / result structs, reached through lists, sets, maps and typedefs; typedefs, structs, unions, exceptions, enums and base / container type expressions carry annotations of other tools (validate.format, owner, pii, ...; slice-annotated sets too), so that the type of a redacted / no-log field often has annotations of its own; string / binary leaves of redacted fields carry unique markers; zap generation on and off. " +
+		Rule: "cases are (generated type, value, value differing only in go.redact field values, value differing only in go.nolog fields) over programs generated with one field in two carrying go.redact and one in four go.nolog, on fields of every type, in structs, unions, exceptions and function argument / result structs, reached through lists, sets, maps and typedefs; both annotations written bare half of the time and otherwise with a value (empty, true / 1 / TRUE / T, pii, yes, secret, credentials, on, gdpr, 'email address'); typedefs, structs, unions, exceptions, enums and base / container type expressions carry annotations of other tools (validate.format, owner, pii, ...; slice-annotated sets too), so that the type of a redacted / no-log field often has annotations of its own; string / binary leaves of redacted fields carry unique markers; zap generation on and off. " +
 			"Oracle: String(), Error() and the zap JSON (arrays compared as multisets) are identical for values that differ only in redacted field values; zap JSON is identical for values that differ only in no-log fields; no marker (raw, base64, decimal bytes) occurs in any output; every other set top-level field appears (Go name in String(), label key in zap) and no-log keys are absent. " +
 			"Non-trivial: a redacted field sits at nesting depth >=1 below the printed value. Distinct: SHA-256 of (program, type, value, alternative value).",
 		Assumptions: []string{
 			"zapcore JSON encoder as the log sink; presence of redacted fields (not their value) is allowed to show",
+			"go.redact and go.nolog work by presence, whatever value they are written with (statement: 'fields annotated go.redact / go.nolog'; gen/field.go shouldRedact and gen/zap.go zapOptOut test `_, ok := Annotations[key]`; CHANGELOG and doc comments only show the bare form). Values a boolean parser reads as false (false, 0, f, no, off) are not generated: on the unchanged tree they redact too, but a reader may take them for 'not annotated'",
 			"harness/drv reflection mapping",
 		},
 		Units: []Unit{
@@ -349,12 +352,13 @@ var plans = map[string]Plan{
 	},
 	"C19": {
 		Level: "exploration",
-		Rule: "cases are (program with services, option set {recurse, no-recurse} x {zap, no-zap}): services whose parameters / returns / exceptions range over required and optional primitives, enums, binary, nested containers, unhashable keys, slice-annotated sets, typedefs of each, structs, cross-file references, services extending services across files, go.name on parameters and exceptions; programs of 1-5 files, one in two of those with >= 3 files having three or four files of ONE base name in different directories (a/types, b/types, c/types; including each other, services extending services of same-named files). An in-process ServiceGenerator captures every GenerateServiceRequest and returns probe files rendered with plugin.GoFileFromTemplate / formatType / import: one per module inside the generated package (root services), and one per request in a package of its own that covers EVERY service of the request (roots and ancestors) and therefore imports all their packages in a single rendering; the lab is then built. The helpers of every function are exercised at run time by the reflection driver (success value, each declared exception, undeclared exception types and plain errors). " +
+		Rule: "cases are (program with services, option set {recurse, no-recurse} x {zap, no-zap}): services whose parameters / returns / exceptions range over required and optional primitives, enums, binary, nested containers, unhashable keys, slice-annotated sets, typedefs of each, structs, cross-file references, services extending services across files, go.name on parameters and exceptions; arguments with default values of every literal form (numbers, hex, int for double / bool, strings, enum items by name and by value, list / set / map / struct literals) under any declared requiredness (optional, unspecified, required); one enum in two and one struct / union / exception / typedef in three renamed with (go.name = \"...\"), enums also named directly and as list / set element, map key, map value and list-of-list element in signatures; programs of 1-5 files, one in two of those with >= 3 files having three or four files of ONE base name in different directories (a/types, b/types, c/types; including each other, services extending services of same-named files). An in-process ServiceGenerator captures every GenerateServiceRequest and returns probe files rendered with plugin.GoFileFromTemplate / formatType / import: one per module inside the generated package (root services), and one per request in a package of its own that covers EVERY service of the request (roots and ancestors) and therefore imports all their packages in a single rendering; the lab is then built. The helpers of every function are exercised at run time by the reflection driver (success value, each declared exception, undeclared exception types and plain errors). " +
 			"Oracle: request self-consistency against the model (ids resolve, parent chains acyclic and as declared, root services == services of the generated files, Go names, import paths, directories, function / argument / exception lists); the probe assignments '*<formatted type> = &args.Field' and 'func(<formatted type>, error) ... = Helper.WrapResponse' type-check only for identical types, so the build decides identity (an import name given to two packages, or one Go refuses, fails the build too: keys probe/import-name/*); WrapResponse / UnwrapResponse map values and declared exceptions to the result struct and back without loss and refuse undeclared errors; IsException agrees. " +
 			"Non-trivial: program with >=2 functions (request/probes); any exception / undeclared-error case or a non-scalar return (helpers). Distinct: SHA-256 of (program, options) resp. of the helper case.",
 		Assumptions: []string{
 			"pointer / func assignability in Go holds only for identical types, so a successful build of the probe proves type identity",
 			"programs the generator rejects are C06's business and skipped here (counted)",
+			"an argument with a default value is not a required one whatever it declares (compile.FieldSpec.Required = declared required AND no default), so its primitive / enum type is *T in the args struct and in Helper.Args; the go.name of a definition is the name of its Go type wherever it is mentioned",
 		},
 		Units: []Unit{
 			{Name: "request+probes", Pkg: "./checks/c19", Run: "^TestRequestAndProbes$", Shards: [2]int{6, 12}, Weight: 2},
